@@ -361,7 +361,8 @@ def run_order(case, out, fail, sc):
     import twosigma.memento as m
 
     def repo(i, names):
-        return m.ConfigurationRepository(name="r%d" % i, clusters={
+        # (every third repository goes by the name of the first one: names of repositories are labels, not keys)
+        return m.ConfigurationRepository(name="r%d" % (1 if i % 3 == 0 else i), clusters={
             n: m.FunctionCluster(name=n, storage=env.fs_backend(sc.path("r%d_%s" % (i, n)))) for n in names})
 
     repos = [repo(0, ["dup", "only0"]), repo(1, ["dup", "only1"]), repo(2, ["dup2"])]
@@ -410,7 +411,8 @@ def run_resolve_history(case, out, fail, sc):
         count[0] += 1
         i = count[0]
         defined = rng.sample(names, rng.randint(1, 3))
-        return m.ConfigurationRepository(name="r%d" % i, clusters={
+        # (every third repository goes by the name of the first one: names of repositories are labels, not keys)
+        return m.ConfigurationRepository(name="r%d" % (1 if i % 3 == 0 else i), clusters={
             n: m.FunctionCluster(name=n, storage=env.fs_backend(sc.path("r%d_%s" % (i, n)))) for n in defined})
 
     ordered = [repo() for _ in range(rng.randint(0, 2))]
